@@ -8,6 +8,22 @@ CLAIMED = {
    technique="deterministic simulation: seeded Seek/Read histories of 1-3 interleaved reader clients over a simulated block store, step-by-step comparison with an independent (content,pos) reference model, tape shrinking to a minimal replayable history",
    text="Seeded search over histories x DAG shapes (this builder, boxo balanced/trickle importer, harness-written legal oddities) at tree widths 2..174; every call is compared with a reference reader over content parsed independently from the stored blocks. Sampling, not proof: a clean batch is evidence that no history of the explored shape breaks the ReadSeeker contract.",
    note="Trusts: boxo merkledag/unixfs protobuf parsing for the reference content; go-ipld-prime LinkSystem; well-formed DAGs only; offsets within int64; invalid whence not generated."),
+ "C05": dict(level="exploration", ref="DESIGN.md §3 C05",
+   technique="deterministic simulation: request monitor at the simulated block store against an independently computed allowed block set, plus re-execution on a starved store (every other block unavailable)",
+   text="Seeded search over file DAG shapes x ranges (biased to chunk/interior boundaries, empty and whole-file ranges) via Seek+ReadFull and via a MatcherSubset traversal; sharded directories (fanout 8..1024, mined hash-prefix collisions, writers: this builder and boxo incl. insert/remove histories) x member/non-member lookups; mixed trees x paths through UnixFSPathSelector. Every storage request must lie in the allowed set; on the starved store the operation must still return the model's answer.",
+   note="Only the upper bound (no over-fetch) is asserted. Trusts boxo's dag-pb/unixfs parsing and spaolacci/murmur3 for the model's hash paths. DAGs declare child sizes."),
+ "C06": dict(level="fault_enumeration", ref="DESIGN.md §3 C06",
+   technique="deterministic simulation with storage fault injection: requested-set equality against the model on a complete store, then exhaustive single-block fault sweep x 3 fault kinds, k-th-load-fails for every k, and seeded block subsets; every faulted execution must return an error",
+   text="Per seeded entity (file DAG or sharded directory, optionally reached through UnixFSPathSelectorBuilder) the three access paths (unixfs-preload reifier, preload selector, entity selector + BytesConsumingMatcher) are run fault-free (requested set must equal the entity's block set exactly) and under every single-block fault of the entity (complete enumeration per DAG, entities up to 300 blocks).",
+   note="Exhaustive per generated DAG, sampled over DAGs. A node returned together with an error is accepted. Trusts the independent model for the entity block set."),
+ "C12": dict(level="fault_enumeration", ref="DESIGN.md §3 C12",
+   technique="deterministic simulation with storage fault injection: exhaustive single-block unavailability sweep x 4 fault kinds (not-found, I/O error at open, I/O error mid-stream, corrupted bytes failing the hash check), k-th-load-fails-once for every k, seeded 2-3 block subsets; oracle = independent model of what stays reachable",
+   text="Per seeded DAG every non-root block is made unavailable in turn with every fault kind; sequential reads must return exactly the bytes before the missing span and then the load error (never EOF); lookups crossing a missing shard must return the load error (never not-found), lookups elsewhere the model's answer; iteration must terminate, yield each reachable entry once and report one error per missing shard met.",
+   note="Exhaustive per generated DAG, sampled over DAGs. Zero-length blocks may legitimately be skipped. Only error-returning entry points are judged."),
+ "C20": dict(level="exploration", ref="DESIGN.md §3 C20",
+   technique="deterministic simulation: ordered request log of the simulated block store compared with an independent depth-first link-order walk, each operation repeated on cold nodes in-process",
+   text="Seeded search over file DAGs, sharded directories and trees x operations (full read via AsBytes / Read loops, preload reify, MapIterator, Length, entity-selector walk, path traversal with match/preload/entity target); the first-request order must equal the model's pre-order walk on each of 3 repetitions.",
+   note="Go map order inside the library is not owned by the simulator, it is re-drawn per repetition; the oracle is a fixed order so a dependence shows as a mismatch, but only with the probability that the runtime picks a different order."),
 }
 
 NA = {
@@ -24,7 +40,7 @@ NA = {
  "C19": "Pure function of (random stream, size); the injected reader is a seed, not a fault surface.",
 }
 
-PENDING = {k: "claimed in DESIGN.md; check under construction in this round, not yet registered" for k in ["C05","C06","C10","C12","C13","C16","C17","C20"]}  # id -> reason, for claimed-in-design checks that are not built yet
+PENDING = {k: "claimed in DESIGN.md; check under construction in this round, not yet registered" for k in ["C10","C13","C16","C17"]}  # id -> reason, for claimed-in-design checks that are not built yet
 
 def main():
     checks = []
